@@ -8,15 +8,19 @@ ID = 'C09'
 LEVEL = 'model_checking'
 TECHNIQUE = ('symbolic execution of the rustc MIR of sqrt_price_from_tick_index (19 if-diamonds merged with ite, tick bits symbolic) into integer SMT, z3 5.1: '
              'strict monotonicity on ALL ticks by a split on the position of the lowest zero bit, with per-stage gap lemmas proved first and instantiated as hints; '
-             'Kani/CBMC on blocks of consecutive ticks for the inverse function and the per-step ratio')
+             'per-step ratio | p(t+1)/p(t) - sqrt(1.0001) | <= 2^-32 on ALL ticks with price >= 1.001 * 2^32 by integer ratio bounds Lo*a <= 2^96*b <= Hi*a propagated stage by stage '
+             '(each stage one linear-integer query; reference factor floor(sqrt(1.0001)*2^96) computed independently); '
+             'Kani/CBMC on blocks of consecutive ticks for the inverse function, and for the ratio on the 32 lowest ticks')
 FUNCTIONS = ['math::tick_math::sqrt_price_from_tick_index', 'math::tick_math::get_sqrt_price_positive_tick', 'math::tick_math::get_sqrt_price_negative_tick',
              'math::tick_math::mul_shift_96', 'math::tick_math::tick_index_from_sqrt_price (blocks, Engine K)']
 BOUNDS = ['forward direction: every tick in [-443636, 443636] (no bound: 2 x 19 structured queries cover all 887 273 ticks)',
-          'inverse direction and ratio: blocks of consecutive ticks chosen by the tier and VERIF_SEED (Engine K)']
+          'per-step ratio: every step t -> t+1 with p(t) >= 1.001 * 2^32 (all but the 20 lowest ticks) by Engine M; the 32 lowest ticks by a Kani block; seam -1 -> 0 -> 1 as constants',
+          'inverse direction: blocks of 16 (quick) / 64 (thorough) consecutive ticks at MIN, 0, MAX and around +-2^k, k = 4, 8, 12, 16, 18 (Engine K): tick(p(t)) = t, tick(p(t)-1) = t-1, tick(p(t)+1) = t']
 ASSUMPTIONS = ['K1: mul_u256(a,b) = a*b; U256Muldiv::shift_right(n) = floor(x / 2^n); try_into_u128 fails iff >= 2^128 (Kani kernel harnesses)',
                'MIR of the nightly compiler agrees with the SBF build on safe integer code']
 OUTSIDE = ['tick_index_from_sqrt_price on sqrt-prices outside the checked blocks (T2 stays an assumption where other properties use it)',
-           'the 2^-32 relative step-ratio bound outside the checked blocks']
+           'tick_index_from_sqrt_price away from tick boundaries (interior prices) and at boundaries outside the blocks: the 14 data-dependent 64x64-bit squarings are beyond both back ends for symbolic prices '
+           '(a 512-tick block costs CBMC ~700 s; all 887 273 boundaries would need ~90 CPU-hours)']
 EXPLANATION = ('t and t+1 share the bits above the lowest zero bit j of t; below it they are 1..10 and 0..01. Both prices are the same chain of conditional floor-'
                'multiplications applied to two constants A_j < B_j (obtained by constant folding of the MIR-derived term); each stage keeps (positive side) or scales '
                '(negative side) the gap, which is the per-stage lemma')
@@ -65,6 +69,95 @@ def stage_pairs(ta, tb):
             if isinstance(u, tuple) and isinstance(v, tuple): walk(u, v)
     walk(ta, tb)
     return pairs
+
+
+# ---------------------------------------------------------------------------------------------- per-step ratio on ALL ticks
+import math
+K_REF = math.isqrt((10001 << 192) // 10000)          # floor(sqrt(1.0001) * 2^96): independent reference for the per-step factor
+W96 = 1 << 96
+PMIN_NEG = ((1 << 32) * 1001) // 1000                # the all-ticks ratio claim is made for ticks whose price is at least 1.001 * 2^32 (all but the 20 lowest ticks: the last
+                                                      # floor of the negative chain costs up to one unit = 2^-32 relative at price 2^32; those ticks are decided by the Kani block at MIN_TICK)
+
+
+def ratio_bounds(a, b):
+    """(lo, hi, amin): integer bounds lo*a <= 2^96*b <= hi*a over all branches of two starting values that are constants or ite-of-constants under the same conditions"""
+    if T.is_c(a) and T.is_c(b):
+        return (W96 * b[1]) // a[1], -((-W96 * b[1]) // a[1]), a[1]
+    if a[0] == 'ite' and b[0] == 'ite' and a[1] == b[1]:
+        r1, r0 = ratio_bounds(a[2], b[2]), ratio_bounds(a[3], b[3])
+        if r1 is None or r0 is None: return None
+        return min(r1[0], r0[0]), max(r1[1], r0[1]), min(r1[2], r0[2])
+    return None
+
+
+def ratio_obligations(sign, j, stages, ft, fu, pc, sy):
+    """Obligations that establish, stage by stage, integer bounds Lo*a <= 2^96*b <= Hi*a between the chain of the lower tick (a) and of the upper tick (b),
+    widened at each conditional floor-multiplication by the exact effect of the two truncations, and finally | 2^96*p(t+1) - K*p(t) | <= 2^64 * p(t)."""
+    sg = 'pos' if sign > 0 else 'neg'
+    obls = []
+    lower_final, upper_final = (ft, fu) if sign > 0 else (fu, ft)
+    def final_goal(pa, pb):
+        d = T.sub(T.mul(C(W96), pb), T.mul(C(K_REF), pa))
+        bound = T.mul(C(1 << 64), pa)
+        return T.and_(T.cmp('<=', d, bound), T.cmp('<=', T.sub(C(0), d), bound))
+    hyp = [T.cmp('>=', lower_final, C(PMIN_NEG))] if sign < 0 else []
+    note_final = ('| p(t+1)/p(t) - sqrt(1.0001) | <= 2^-32 for every t whose lowest zero bit (of |t| on the negative side) is bit %d' % j) + \
+                 (' and whose price is at least %d' % PMIN_NEG if sign < 0 else '')
+    if not stages:
+        o = M.Obligation(f'ratio:{sg}:chain:j={j}', pc + hyp, final_goal(lower_final, upper_final), note=note_final + ' (no symbolic stage: both prices are constants)')
+        o.replay = dict(custom=ratio_replay(sign, j, sy)); obls.append(o)
+        return obls
+    def ab(k):
+        _, x, y = stages[k]
+        return (x, y) if sign > 0 else (y, x)
+    a0, b0 = ab(0)
+    rb = ratio_bounds(a0[3], b0[3])
+    if rb is None: return obls
+    Lo, Hi, Amin = rb
+    def inv(a, b, lo, hi, amin):
+        return T.and_(T.cmp('<=', T.mul(C(lo), a), T.mul(C(W96), b)), T.cmp('<=', T.mul(C(W96), b), T.mul(C(hi), a)), T.cmp('>=', a, C(amin)))
+    prev = inv(a0[3], b0[3], Lo, Hi, Amin)
+    o = M.Obligation(f'ratio:{sg}:j={j}:stage_init', pc, prev, note=f'starting values: {Lo} * a <= 2^96 * b <= {Hi} * a, a >= {Amin}'); o.replay = None; obls.append(o)
+    for k in range(len(stages)):
+        a, b = ab(k)
+        cst, w = a[2][1][1][1], a[2][2][1]
+        last = (k == len(stages) - 1)
+        amin2 = min(Amin, (Amin * cst) // w)
+        extra = []
+        if sign < 0 and last:
+            amin2 = max(amin2, PMIN_NEG); extra = hyp       # the output of the last stage is the price itself
+        lo2, hi2 = Lo - (-((-W96) // amin2)), Hi + (-((-Hi) // amin2))
+        goal = inv(a, b, lo2, hi2, amin2)
+        o = M.Obligation(f'ratio:{sg}:j={j}:stage{k}', pc + [prev] + extra, goal,
+                         note=f'conditional floor-multiplication by {cst}/{w}: bounds widen by at most ceil(2^96/{amin2}) below and ceil(Hi/{amin2}) above')
+        o.replay = None; obls.append(o)
+        prev, Lo, Hi, Amin = goal, lo2, hi2, amin2
+    a, b = ab(len(stages) - 1)
+    if sign > 0:
+        # final `>> 32`: p = floor(ratio / 2^32)
+        assert lower_final[0] == 'div' and T.is_c(lower_final[2]) and lower_final[2][1] == (1 << 32), lower_final[:1]
+        amin2 = Amin >> 32
+        lo2, hi2 = Lo - (-((-W96) // amin2)), Hi + (-((-Hi) // amin2))
+        goal = inv(lower_final, upper_final, lo2, hi2, amin2)
+        o = M.Obligation(f'ratio:{sg}:j={j}:final_shift', pc + [prev], goal, note='p = ratio >> 32 on both chains'); o.replay = None; obls.append(o)
+        prev, Lo, Hi, Amin = goal, lo2, hi2, amin2
+    o = M.Obligation(f'ratio:{sg}:chain:j={j}', pc + [prev] + hyp, final_goal(lower_final, upper_final),
+                     note=note_final + f'; established bounds {Lo} <= 2^96 * p(t+1)/p(t) <= {Hi}, reference K = {K_REF}')
+    o.replay = dict(custom=ratio_replay(sign, j, sy)); obls.append(o)
+    return obls
+
+
+def ratio_replay(sign, j, sy):
+    def custom(env):
+        from vlib import replay_m
+        m = sum(1 << i for i in range(j)) + sum((1 << k) for k, v in sy.items() if env.get(v[1]))
+        lo_t, hi_t = (m, m + 1) if sign > 0 else (-(m + 1), -m)
+        a = replay_m.native('sqrt_price_from_tick_index', [lo_t]); b = replay_m.native('sqrt_price_from_tick_index', [hi_t])
+        pa, pb = int(a.split()[1]), int(b.split()[1])
+        d = abs(W96 * pb - K_REF * pa)
+        if d <= (pa << 64): return 'holds', f'p({lo_t})={pa}, p({hi_t})={pb}: within 2^-32'
+        return 'violates', f'sqrt_price_from_tick_index({hi_t}) / sqrt_price_from_tick_index({lo_t}) = {pb}/{pa} differs from sqrt(1.0001) by more than 2^-32 (|2^96*p1 - K*p0| = {d} > 2^64*p0)'
+    return custom
 
 
 def mono_task(sign, jlist):
@@ -180,6 +273,7 @@ def mono_task(sign, jlist):
                 o = M.Obligation(f'mono:{sg}:chain:j={j}', pt.pc + pu.pc + rel_hints, goal, note='monolithic chain query with stage-lemma instances as hints')
             o.replay = dict(custom=mono_replay(sign, j, sy))
             obls.append(o)
+            obls.extend(ratio_obligations(sign, j, stages if ok_chain else [], ft, fu, pt.pc + pu.pc, sy))
             if ctx.tier == 'thorough':
                 o = M.Obligation(f'mono:{sg}:chain_monolithic:j={j}', pt.pc + pu.pc + rel_hints, goal, note='cross-check: one query over the whole chain with relative stage-lemma instances')
                 o.replay = dict(custom=mono_replay(sign, j, sy)); obls.append(o)
@@ -244,6 +338,14 @@ def endpoints_task(ctx):
                           ('seam:p(0)<p(1)', T.cmp('<', vals[0], vals[1]), endpoint_replay(0, cval(1) or 0, '<')),
                           ('p(0)=2^64', T.cmp('=', vals[0], C(1 << 64)), endpoint_replay(0, 1 << 64, '='))):
         o = M.Obligation('endpoints:' + key, [], goal); o.replay = dict(custom=rp); o.nontrivial = True
+        obls.append(o)
+    for lo_t in (-2, -1, 0):       # ratio across the seam between the two chains (constants): steps -2 -> -1 (mt = 1 is excluded from the negative j-split), -1 -> 0, 0 -> 1
+        if lo_t not in vals:
+            outs = [(p, r) for p, r in run_price(e, C(lo_t), []) if not isinstance(r, Panic)]; vals[lo_t] = outs[0][1].t
+        pa, pb = vals[lo_t], vals[lo_t + 1]
+        d = T.sub(T.mul(C(W96), pb), T.mul(C(K_REF), pa)); bound = T.mul(C(1 << 64), pa)
+        o = M.Obligation(f'endpoints:ratio:{lo_t}->{lo_t + 1}', [], T.and_(T.cmp('<=', d, bound), T.cmp('<=', T.sub(C(0), d), bound)),
+                         note='| p(t+1)/p(t) - sqrt(1.0001) | <= 2^-32 at the seam'); o.replay = None; o.nontrivial = True
         obls.append(o)
     ctx.functions.update(e.executed)
     ctx.discharge(obls)
